@@ -199,17 +199,19 @@ def run_driver(case_lines, impl_lines, timeout=3600):
     n = len(lines)
     if n == 0:
         return [], None
-    nproc = 1 if n < 400 else min(12, (n + 399) // 400)
-    size = (n + nproc - 1) // nproc
-    chunks = [lines[k:k + size] for k in range(0, n, size)]
+    nproc = 1 if n < 400 else min(14, (n + 199) // 200)
+    # round-robin: expensive cases (long blocks) cluster in the case list
+    chunks = [lines[k::nproc] for k in range(nproc)]
     from concurrent.futures import ThreadPoolExecutor
     with ThreadPoolExecutor(max_workers=nproc) as ex:
         res = list(ex.map(_run_driver_chunk, [(b, '\n'.join(ch) + '\n', timeout) for ch in chunks]))
-    out = []
-    for ch, (o, rc, err) in zip(chunks, res):
+    out = [None] * n
+    for k, (ch, (o, rc, err)) in enumerate(zip(chunks, res)):
         if rc != 0 or len(o) != len(ch):
-            return out + o, {'rc': rc, 'stderr': err, 'n_out': len(out) + len(o)}
-        out += o
+            # report the first case of this chunk that has no answer
+            done = [x for x in out if x is not None]
+            return [x if x is not None else 'model-skip @@ -' for x in out[:k + nproc * len(o)]], {'rc': rc, 'stderr': err, 'n_out': k + nproc * len(o)}
+        out[k::nproc] = o
     return out, None
 
 # ------------------------------------------------------------------------------------------------
